@@ -34,6 +34,34 @@ impl rand_core::RngCore for Fixed {
 }
 impl rand_core::CryptoRng for Fixed {}
 
+/// a table either loaded from DIR/<name>.bin (raw memory written by an earlier native run of the same binary)
+/// or built now (and written to DIR if one is given)
+#[cfg(feature = "tables")]
+fn cached<T>(dir: &Option<String>, name: &str, make: impl FnOnce() -> T) -> &'static T {
+    let size = std::mem::size_of::<T>();
+    if let Some(d) = dir {
+        let path = format!("{}/{}.bin", d, name);
+        if let Ok(bytes) = std::fs::read(&path) {
+            if bytes.len() == size {
+                let mut buf: Vec<u64> = vec![0u64; (size + 7) / 8];
+                unsafe { std::ptr::copy_nonoverlapping(bytes.as_ptr(), buf.as_mut_ptr() as *mut u8, size) };
+                let leaked: &'static mut [u64] = Box::leak(buf.into_boxed_slice());
+                assert!(std::mem::align_of::<T>() <= 8);
+                return unsafe { &*(leaked.as_ptr() as *const T) };
+            }
+        }
+        let t: &'static T = Box::leak(Box::new(make()));
+        let raw = unsafe { std::slice::from_raw_parts(t as *const T as *const u8, size) };
+        let _ = std::fs::create_dir_all(d);
+        let tmp = format!("{}.{}", path, std::process::id());
+        if std::fs::write(&tmp, raw).is_ok() {
+            let _ = std::fs::rename(&tmp, &path);
+        }
+        return t;
+    }
+    Box::leak(Box::new(make()))
+}
+
 #[no_mangle]
 pub static mut CT_MARKER: u64 = 0;
 
@@ -70,6 +98,10 @@ pub const OPS: &[&str] = &[
     // encodings, batch compression, hashing to a scalar, key expansion, conversions
     "sc_sum3", "sc_product3", "ed_sum3", "sc_cond_select", "ed_cond_select", "ed_decompress", "rs_decompress",
     "rs_batch_compress", "sc_from_hash", "ed_expand", "sk_to_scalar_bytes", "mt_to_edwards", "x_reusable_dh",
+    // fourth group: fixed-base tables of every radix created from a public point (a table select that scans
+    // only part of a large table is a secret-dependent ADDRESS, not a branch: seeded change C10d). In builds
+    // without precomputed tables these regions run the variable-base multiplication instead.
+    "table_r16", "table_r32", "table_r64", "table_r128", "table_r256", "rs_table",
 ];
 
 fn main() {
@@ -86,7 +118,11 @@ fn main() {
         return;
     }
     let mut input = String::new();
-    std::io::stdin().read_to_string(&mut input).unwrap();
+    if op != "--make-tables" {
+        std::io::stdin().read_to_string(&mut input).unwrap();
+    } else {
+        input = "00".into();
+    }
     let secret = unhex(&input);
     let mut s32 = [0u8; 32];
     let mut s64 = [0u8; 64];
@@ -112,6 +148,26 @@ fn main() {
     let sec_enc = sec_point_t.compress();
     let sec_renc = sec_rpoint.compress();
     let reusable = x25519_dalek::ReusableSecret::random_from_rng(Fixed(s32));
+    // Tables of a public point. Building them costs ~10^8 instructions (thousands of field inversions), far
+    // too slow under the tracer, so `ctdriver --make-tables DIR` (run natively, once per build) stores their
+    // raw memory and traced runs load it (CT_TABLE_DIR); the types are plain arrays of limbs.
+    #[cfg(feature = "tables")]
+    let tables = {
+        use curve25519_dalek::edwards::*;
+        use curve25519_dalek::traits::BasepointTable;
+        let dir = std::env::var("CT_TABLE_DIR").ok();
+        (
+            cached(&dir, "r16", || EdwardsBasepointTableRadix16::create(&pub_point)),
+            cached(&dir, "r32", || EdwardsBasepointTableRadix32::create(&pub_point)),
+            cached(&dir, "r64", || EdwardsBasepointTableRadix64::create(&pub_point)),
+            cached(&dir, "r128", || EdwardsBasepointTableRadix128::create(&pub_point)),
+            cached(&dir, "r256", || EdwardsBasepointTableRadix256::create(&pub_point)),
+            cached(&dir, "rs", || curve25519_dalek::ristretto::RistrettoBasepointTable::create(&pub_rpoint)),
+        )
+    };
+    if op == "--make-tables" {
+        return; // the tables were written by `cached` above
+    }
     let pub_u2 = pub_point.to_montgomery();
     let eph = x25519_dalek::StaticSecret::from(s32);
     let sk = ed25519_dalek::SigningKey::from_bytes(&s32);
@@ -192,6 +248,20 @@ fn main() {
             "sk_to_scalar_bytes" => out = sk.to_scalar_bytes().to_vec(),
             "mt_to_edwards" => out = sec_u.to_edwards(s64[33] & 1).map(|p| p.compress().to_bytes().to_vec()).unwrap_or_default(),
             "x_reusable_dh" => out = reusable.diffie_hellman(&x25519_dalek::PublicKey::from([7u8; 32])).to_bytes().to_vec(),
+            #[cfg(feature = "tables")]
+            "table_r16" => out = (tables.0 * &sec_scalar).compress().to_bytes().to_vec(),
+            #[cfg(feature = "tables")]
+            "table_r32" => out = (tables.1 * &sec_scalar).compress().to_bytes().to_vec(),
+            #[cfg(feature = "tables")]
+            "table_r64" => out = (tables.2 * &sec_scalar).compress().to_bytes().to_vec(),
+            #[cfg(feature = "tables")]
+            "table_r128" => out = (tables.3 * &sec_scalar).compress().to_bytes().to_vec(),
+            #[cfg(feature = "tables")]
+            "table_r256" => out = (tables.4 * &sec_scalar).compress().to_bytes().to_vec(),
+            #[cfg(feature = "tables")]
+            "rs_table" => out = (tables.5 * &sec_scalar).compress().to_bytes().to_vec(),
+            #[cfg(not(feature = "tables"))]
+            "table_r16" | "table_r32" | "table_r64" | "table_r128" | "table_r256" | "rs_table" => out = (pub_point * sec_scalar).compress().to_bytes().to_vec(),
             // deliberately variable-time control: the tracer must see a difference here
             "control_vartime" => out = EdwardsPoint::vartime_double_scalar_mul_basepoint(&sec_scalar, &pub_point, &pub_scalar).compress().to_bytes().to_vec(),
             _ => {
